@@ -1,0 +1,217 @@
+/*
+ * Copyright 2019 The Starlark in Rust Authors.
+ * Copyright (c) Facebook, Inc. and its affiliates.
+ *
+ * Licensed under the Apache License, Version 2.0 (the "License");
+ * you may not use this file except in compliance with the License.
+ * You may obtain a copy of the License at
+ *
+ *     https://www.apache.org/licenses/LICENSE-2.0
+ *
+ * Unless required by applicable law or agreed to in writing, software
+ * distributed under the License is distributed on an "AS IS" BASIS,
+ * WITHOUT WARRANTIES OR CONDITIONS OF ANY KIND, either express or implied.
+ * See the License for the specific language governing permissions and
+ * limitations under the License.
+ */
+
+//! Verification hooks for deterministic simulation.
+//!
+//! Only compiled with the cargo feature `verif_hooks` (off by default).
+//! Every hook is a no-op until an external simulator installs something,
+//! so even with the feature on the behaviour is unchanged by default.
+
+use std::cell::Cell;
+use std::cell::RefCell;
+use std::sync::atomic::AtomicBool;
+use std::sync::atomic::AtomicU64;
+use std::sync::atomic::AtomicUsize;
+use std::sync::atomic::Ordering;
+
+/// Answer of the installed GC decider at a GC safepoint.
+#[derive(Copy, Clone, Debug, PartialEq, Eq)]
+pub enum GcDecision {
+    /// Do what the evaluator would do anyway (threshold based).
+    Default,
+    /// Collect now (unless the evaluator has GC disabled).
+    Collect,
+    /// Do not collect at this safepoint.
+    Skip,
+}
+
+thread_local! {
+    static GC_DECIDER: RefCell<Option<Box<dyn FnMut(u64) -> GcDecision>>> = const { RefCell::new(None) };
+    static GC_SAFEPOINT: Cell<u64> = const { Cell::new(0) };
+    static NO_PREEMPT: Cell<u32> = const { Cell::new(0) };
+}
+
+/// Install (or remove) the GC decider of the current thread. Resets the safepoint ordinal.
+pub fn set_gc_decider(f: Option<Box<dyn FnMut(u64) -> GcDecision>>) {
+    GC_SAFEPOINT.with(|c| c.set(0));
+    GC_DECIDER.with(|d| *d.borrow_mut() = f);
+}
+
+/// Called by the evaluator at each GC safepoint.
+pub(crate) fn gc_decide() -> GcDecision {
+    GC_DECIDER.with(|d| match d.try_borrow_mut() {
+        Ok(mut d) => match d.as_mut() {
+            None => GcDecision::Default,
+            Some(f) => {
+                let n = GC_SAFEPOINT.with(|c| {
+                    let n = c.get();
+                    c.set(n + 1);
+                    n
+                });
+                f(n)
+            }
+        },
+        Err(_) => GcDecision::Default,
+    })
+}
+
+static POISON: AtomicBool = AtomicBool::new(false);
+static QUARANTINE: AtomicBool = AtomicBool::new(false);
+
+/// Word written over every freed arena when poisoning is on.
+/// Low bit clear, non-canonical as an x86-64 address, absurd as a length.
+pub const POISON_WORD: usize = 0xDEAD_DEAD_DEAD_DEA8u64 as usize;
+
+/// Overwrite arenas with `POISON_WORD` when they are dropped.
+pub fn set_poison(on: bool) {
+    POISON.store(on, Ordering::SeqCst);
+}
+
+/// Leak poisoned arenas instead of returning their memory to the allocator.
+pub fn set_quarantine(on: bool) {
+    QUARANTINE.store(on, Ordering::SeqCst);
+}
+
+#[inline]
+pub(crate) fn poison_enabled() -> bool {
+    POISON.load(Ordering::Relaxed)
+}
+
+#[inline]
+pub(crate) fn quarantine_enabled() -> bool {
+    QUARANTINE.load(Ordering::Relaxed)
+}
+
+/// Poison a region of memory. `ptr` must be word-aligned and valid for `len` bytes.
+pub(crate) unsafe fn poison_region(ptr: *mut u8, len: usize) {
+    unsafe {
+        let words = len / std::mem::size_of::<usize>();
+        let p = ptr as *mut usize;
+        for i in 0..words {
+            p.add(i).write_volatile(POISON_WORD);
+        }
+        POISONED_BYTES.fetch_add(len as u64, Ordering::Relaxed);
+    }
+}
+
+static POISONED_BYTES: AtomicU64 = AtomicU64::new(0);
+
+/// Total number of bytes poisoned so far in this process.
+pub fn poisoned_bytes() -> u64 {
+    POISONED_BYTES.load(Ordering::Relaxed)
+}
+
+/// Sites at which a simulated scheduler may switch threads.
+#[derive(Copy, Clone, Debug, PartialEq, Eq, Hash, PartialOrd, Ord)]
+#[repr(u32)]
+pub enum Site {
+    /// `Chunk::clone` before the count is incremented.
+    ChunkClone = 0,
+    /// `Chunk::drop` before the count is decremented.
+    ChunkDropBefore = 1,
+    /// `Chunk::drop` between the decrement that reached zero and the deallocation.
+    ChunkDropDealloc = 2,
+    /// Per-thread chunk cache: release.
+    ChunkCacheRelease = 3,
+    /// Per-thread chunk cache: allocate.
+    ChunkCacheAlloc = 4,
+    /// `FrozenHeap::into_ref_impl`.
+    FrozenHeapIntoRef = 5,
+    /// `Drop for FrozenFrozenHeap`.
+    FrozenHeapDrop = 6,
+    /// `Heap::add_reference` / `FrozenHeap::add_reference`.
+    AddReference = 7,
+    /// `StarlarkStr::get_hash`, between the load of the cached hash and the store.
+    StrHash = 8,
+    /// Load of an atomic frozen value cell.
+    AtomicValueLoad = 9,
+    /// Store of an atomic frozen value cell.
+    AtomicValueStore = 10,
+    /// `FrozenDef::post_freeze`.
+    PostFreeze = 11,
+    /// `TypeInstanceId::r#gen`.
+    TypeInstanceId = 12,
+    /// Static string hash cache.
+    StaticStringHash = 13,
+    /// One evaluator tick (call or loop back-edge).
+    Tick = 14,
+    /// Entry of a lazily-initialised process-wide table.
+    LazyInit = 15,
+}
+
+/// Number of `Site` variants.
+pub const SITE_COUNT: usize = 16;
+
+static SCHED_HOOK: AtomicUsize = AtomicUsize::new(0);
+
+/// Install (or remove, with `None`) the process-wide scheduling hook.
+pub fn set_sched_hook(f: Option<fn(Site)>) {
+    SCHED_HOOK.store(f.map_or(0, |f| f as usize), Ordering::SeqCst);
+}
+
+/// A scheduling point: code between two scheduling points runs atomically
+/// with respect to the simulated scheduler.
+#[inline]
+pub fn sched_point(site: Site) {
+    let f = SCHED_HOOK.load(Ordering::Relaxed);
+    if f != 0 {
+        if NO_PREEMPT.with(|c| c.get()) != 0 {
+            return;
+        }
+        // SAFETY: only `set_sched_hook` stores into `SCHED_HOOK`.
+        let f: fn(Site) = unsafe { std::mem::transmute::<usize, fn(Site)>(f) };
+        f(site);
+    }
+}
+
+/// While alive, `sched_point` on this thread does nothing. Used around
+/// `Once`-style initialisers, whose intermediate states no other thread can observe.
+pub struct NoPreempt(());
+
+impl NoPreempt {
+    /// Enter a no-preemption region.
+    #[inline]
+    pub fn enter() -> NoPreempt {
+        NO_PREEMPT.with(|c| c.set(c.get() + 1));
+        NoPreempt(())
+    }
+}
+
+impl Drop for NoPreempt {
+    #[inline]
+    fn drop(&mut self) {
+        NO_PREEMPT.with(|c| c.set(c.get() - 1));
+    }
+}
+
+/// Is the current thread inside a `NoPreempt` region?
+pub fn in_no_preempt() -> bool {
+    NO_PREEMPT.with(|c| c.get()) != 0
+}
+
+/// Count of chunk life-cycle assertion failures detected (double release, resurrection).
+static CHUNK_ERRORS: AtomicU64 = AtomicU64::new(0);
+
+pub(crate) fn chunk_error(what: &str) -> ! {
+    CHUNK_ERRORS.fetch_add(1, Ordering::SeqCst);
+    panic!("verif_hooks: chunk life-cycle violation: {}", what);
+}
+
+/// Number of chunk life-cycle violations seen.
+pub fn chunk_errors() -> u64 {
+    CHUNK_ERRORS.load(Ordering::SeqCst)
+}
